@@ -578,8 +578,9 @@ class Options:
         # Unstructured glob configs are stored and are all checked for each module.
         unstructured_glob_keys = [k for k in self.per_module_options.keys() if "*" in k[:-1]]
         structured_keys = [k for k in self.per_module_options.keys() if "*" not in k[:-1]]
-        wildcards = sorted(k for k in structured_keys if k.endswith(".*"))
-        concrete = [k for k in structured_keys if not k.endswith(".*")]
+        # A lone "*" is the least specific well-structured wildcard (it matches every module).
+        wildcards = sorted(k for k in structured_keys if k.endswith(".*") or k == "*")
+        concrete = [k for k in structured_keys if not (k.endswith(".*") or k == "*")]
 
         for glob in unstructured_glob_keys:
             self._glob_options.append((glob, self.compile_glob(glob)))
@@ -617,13 +618,13 @@ class Options:
             return self._per_module_cache[module]
 
         # If not, search for glob paths at all the parents. So if we are looking for
-        # options for foo.bar.baz, we search foo.bar.baz.*, foo.bar.*, foo.*,
+        # options for foo.bar.baz, we search foo.bar.baz.*, foo.bar.*, foo.*, *
         # in that order, looking for an entry.
         # This is technically quadratic in the length of the path, but module paths
         # don't actually get all that long.
         options = self
         path = module.split(".")
-        for i in range(len(path), 0, -1):
+        for i in range(len(path), -1, -1):
             key = ".".join(path[:i] + ["*"])
             if key in self._per_module_cache:
                 self._unused_configs.discard(key)
